@@ -272,7 +272,7 @@ func (e *Engine) split(x Value, lo, hi int64) int64 {
 				hi = v.Hi
 			}
 		}
-		if hi-lo > 64 {
+		if hi-lo > 1024 {
 			unsupported("split over a range of %d values", hi-lo+1)
 		}
 		for c := lo; c < hi; c++ {
